@@ -249,25 +249,40 @@ example : (pullN (eachCo .wrap (metaCo 0 [Val.int 1, Val.int 2, Val.int 3])) 2 (
 example : (pullN (enumerateCo (metaCo 0 [Val.int 1, Val.int 2, Val.int 3])) 2 ((0 : Nat), 0)).1 = ((2 : Nat), 2) :=
   lazy_bound_enumerate (metaCo 0 [Val.int 1, Val.int 2, Val.int 3]) 2 (0 : Nat) 0
 
-/-- **lazy_bound (step), partial.** `step n` makes exactly `n` calls on its input per call (the value
-and the `n - 1` elements it steps over), with exactly their events: the lookahead of `Step::next` is
-bounded. Partial with respect to the property: the `n - 1` stepped-over elements are pulled *before*
-the next output is requested (`step_pulls_ahead`, finding F-C13-5). -/
-theorem lazy_bound_step_partial (n : Nat) (hn : n ≥ 1) (c : Co) (m : Nat) (s : c.σ) :
-    pullN (stepCo n c) m s = pullN c (m * n) s := step_calls n hn c m s
+/-- **lazy_bound (step).** One call on `step n` with `k` stepped-over elements pending performs
+exactly `Iterator::nth(k)` on its input: the `k` pending skips (stopping at the first `None`) and then
+the pull of the value it yields — with exactly those events, and *nothing after the yielded value*:
+no element is pulled on behalf of an output nobody has asked for. After a value `n - 1` skips are
+pending, after exhaustion none. (Code as of /repo commit 517b000; before, the `n - 1` skips were
+performed right after yielding — finding F-C13-5, fixed.) -/
+theorem lazy_bound_step (n : Nat) (c : Co) (s : c.σ) (k : Nat) :
+    ((stepCo n c).next (s, k)).out = (nth c k s).out ∧
+    ((stepCo n c).next (s, k)).st.1 = (nth c k s).st ∧
+    ((stepCo n c).next (s, k)).ev = (nth c k s).ev ∧
+    ((stepCo n c).next (s, k)).st.2 = (if (nth c k s).out.isSome then n - 1 else 0) :=
+  step_next_eq n c (s, k)
 
-example : (pullN (stepCo 2 (metaCo 0 [Val.int 1, Val.int 2, Val.int 3, Val.int 4])) 1 (0 : Nat)).2
-    = [Ev.pull 0 0, Ev.pull 0 1] := rfl
+/-- when the pending skips all succeed these are exactly `k + 1` consecutive calls on the input -/
+theorem lazy_bound_step_count (n : Nat) (c : Co) (s : c.σ) (k : Nat) (h : (advance c k s).1 = true) :
+    ((stepCo n c).next (s, k)).st.1 = (pullN c (k + 1) s).1 ∧
+    ((stepCo n c).next (s, k)).ev = (pullN c (k + 1) s).2 := by
+  have ⟨_, e2, e3, _⟩ := step_next_eq n c (s, k)
+  have ⟨p1, p2⟩ := nth_eq_pullN c k s h
+  exact ⟨by rw [e2, p1], by rw [e3, p2]⟩
 
-/-- `Step` pulls ahead (finding F-C13-5; the model mirrors the code): the first call on `step 3`
-over a generator yields element 0 but has already asked the generator for elements 1 and 2, which
-no consumer has requested yet — `lazy_bound_step_partial` bounds the lookahead (`n - 1` elements), it does not
-remove it. The property's "only when consumed" asks for the lazy variant (skip before the next
-yield, requests/C13-fix-5.diff). -/
-theorem step_pulls_ahead (a b c d : Val) :
-    ((stepCo 3 (genCo 0 [a, b, c, d])).next (0, false)).out = some a ∧
-    ((stepCo 3 (genCo 0 [a, b, c, d])).next (0, false)).ev = [Ev.pull 0 0, Ev.pull 0 1, Ev.pull 0 2] :=
-  ⟨rfl, rfl⟩
+/-- **step_first_call_pulls_one.** The first call on `step n` makes exactly one call on its input,
+whatever `n` is: the elements to be stepped over are not touched until the next value is asked for. -/
+theorem step_first_call_pulls_one (n : Nat) (c : Co) (s : c.σ) :
+    (stepCo n c).next (s, 0) =
+      ⟨(c.next s).out, ((c.next s).st, if (c.next s).out.isSome then n - 1 else 0), (c.next s).ev⟩ :=
+  step_first_call n c s
+
+/-- `step 3` over a generator: the first call asks for element 0 only, the second call for 1, 2, 3 -/
+example (a b c d e : Val) :
+    ((stepCo 3 (genCo 0 [a, b, c, d, e])).next ((0, false), 0)).ev = [Ev.pull 0 0] ∧
+    ((stepCo 3 (genCo 0 [a, b, c, d, e])).next ((1, false), 2)).ev = [Ev.pull 0 1, Ev.pull 0 2, Ev.pull 0 3] ∧
+    ((stepCo 3 (genCo 0 [a, b, c, d, e])).next ((1, false), 2)).out = some d :=
+  ⟨rfl, rfl, rfl⟩
 
 /-- laziness composes: `m` calls on `take k (each f c)` leave `c` where `min m k` calls leave it -/
 theorem lazy_bound_take_each (f : Fn) (c : Co) (m k : Nat) (s : c.σ) :
